@@ -266,6 +266,15 @@ def table_state(pt, keyed, fields):
         st['bypos'] = [pt[i].data() for i in range(len(pt))]
     # iteration and the ends of positional access (also on the empty table)
     st['iter'] = [v.data() for v in pt]
+    # iterations of ONE table that overlap in time are independent of each other (a sequence: each loop has its own position)
+    n_pairs = sum(1 for a in pt for b in pt)
+    zipped = [(a.data(), b.data()) for a, b in zip(pt, pt)]
+    it = iter(pt)
+    head = [next(it).data()] if len(pt) else []
+    inner = [v.data() for v in pt]                          # a full traversal while `it` is half consumed
+    tail = [v.data() for v in it]
+    st['overlapping_iterations'] = dict(nested_pairs=n_pairs, zip_with_itself=[a == b for a, b in zipped], zip_first=[a for a, _ in zipped],
+                                        resumed_after_inner_traversal=head + tail, inner_traversal=inner)
     st['last'] = pt[-1].data() if len(pt) else None
     try:
         pt[len(pt)]
@@ -300,6 +309,9 @@ def model_state(model, keyed, fields):
         st['data'] = recs
         st['bypos'] = recs
     st['iter'] = list(st['bypos'])
+    n = len(st['bypos'])
+    st['overlapping_iterations'] = dict(nested_pairs=n * n, zip_with_itself=[True] * n, zip_first=list(st['bypos']),
+                                        resumed_after_inner_traversal=list(st['bypos']), inner_traversal=list(st['bypos']))
     st['last'] = st['bypos'][-1] if st['bypos'] else None
     st['beyond'] = 'IndexError'
     return st
